@@ -11,6 +11,7 @@ import (
 	_ "verif/mc/props/c07"
 	_ "verif/mc/props/c08"
 	_ "verif/mc/props/c09"
+	_ "verif/mc/props/c12"
 	_ "verif/mc/props/c13"
 	_ "verif/mc/props/c14"
 	_ "verif/mc/props/c15"
